@@ -1,7 +1,7 @@
 for _t, _ml in (("c04_xml", 2048), ("c04_json", 4096), ("c04_cbor", 2048), ("c04_uri", 1024), ("c04_datetime", 120),
                 ("c04_codec", 1024), ("c04_misc", 512)):
     fuzz_target(_t, max_len=_ml)
-rc_target("c04_deep", flavour="asan")
+rc_target("c04_deep", flavour="asan", replay_timeout=150)
 plan("C04", [T("c04_deep", 60, 300, 4, 8)] + [F(t, 20, 300, 2, 2) for t in ("c04_xml", "c04_json", "c04_cbor", "c04_uri", "c04_datetime", "c04_codec", "c04_misc")],
      min_nt=1000, quick_cap_s=200, thorough_cap_s=900,
      rule="coverage-guided byte fuzzing per decoder family, decoded by a data-provider layer into (knobs, callback program, input)",
